@@ -354,16 +354,26 @@ class ForeignFamily(Family):
         n = 1500 if tier == "quick" else 15000
         if pid == "C16":
             n = n // 2
-            for _ in range(n):
-                bs, expect, ov = GF.encode_interleaved(rng, stats, rng.range(1, 4))
+            for i in range(n):
+                if i % 3 == 2:
+                    # streams that alternate without overlapping, each on a steady cadence (type-3 message starts)
+                    bs, expect = GF.encode_alternating_cadence(rng, stats)
+                    ov = False
+                    bump(stats, "alternating_cadence")
+                else:
+                    bs, expect, ov = GF.encode_interleaved(rng, stats, rng.range(1, 4))
                 bump(stats, "interleaved_overlapping" if ov else "interleaved_nonoverlapping")
                 sz = part_sizes(rng, len(bs))
                 yield [("note overlap" if ov else "note sequential"), "des.new", f"des.feed {sz} {hexb(bs)}",
                        "!des.decoded " + (" ".join(GF.show_msg(m) for m in expect) or "~"), f"spec.seq {hexb(bs)}"]
             return
-        for _ in range(n):
+        for i in range(n):
             big = rng.chance(1, 25)
-            bs, expect = GF.encode_sequential(rng, stats, rng.range(1, 8), max_len=(70000 if big else 700))
+            if i % 8 == 7:
+                bs, expect = GF.encode_alternating_cadence(rng, stats)
+                bump(stats, "alternating_cadence")
+            else:
+                bs, expect = GF.encode_sequential(rng, stats, rng.range(1, 8), max_len=(70000 if big else 700))
             sz = part_sizes(rng, len(bs))
             ops = ["des.new", f"des.feed {sz} {hexb(bs)}"]
             if pid in ("C06", "C03"):
@@ -646,7 +656,7 @@ class InteropFamily(Family):
 
     def gen(self, rng, tier, pid, stats):
         sizes_cs = [1, 2, 127, 128, 4096, 65535, (1 << 31) - 1]
-        wins = [1, 100, 2500000, M32 - 1]
+        wins = [0, 1, 100, 2500000, M32 - 1]
         n = 3000 if tier == "quick" else 40000
         # a deterministic sweep over all chunk-size pairs first
         combos = [(a, b) for a in sizes_cs for b in sizes_cs]
